@@ -76,6 +76,13 @@ theorem iter_encode_numbering (E : Encoding) (recs : List ERecord) (seq : Nat) (
 
 theorem latin1_lawful : Lawful latin1 := Astm.latin1_lawful
 theorem ascii_lawful : Lawful ascii := Astm.ascii_lawful
+/-- utf-8 as implemented by core Lean's `String.toUTF8` / `String.fromUTF8?` is lawful -/
+theorem utf8_lawful : Lawful utf8 := Astm.utf8_lawful
+/-- cp1251 with the byte table regenerated from Python's codec is lawful -/
+theorem cp1251_lawful : Lawful cp1251 := Astm.cp1251_lawful
+/-- hence the round trip holds for each of the four encodings by name -/
+theorem shipped_encodings_lawful (name : String) (E : Encoding) (h : encodingOf name = some E) : Lawful E :=
+  Astm.encodingOf_lawful name E h
 
 /-- non-vacuity: the hypotheses of `decode_encode_message` are met by a concrete two-record list -/
 theorem example_message :
